@@ -1,7 +1,7 @@
 (* C36 — Each received notification is acknowledged exactly once.  Statements only. *)
 From Coq Require Import List ZArith Permutation.
 Import ListNotations.
-From OV Require Import C36.Model C36.Proofs.
+From OV Require Import C36.Model C36.Proofs C36.Sound.
 Open Scope Z_scope.
 
 (* For every interleaving of publish calls, successful responses and failures (any number in
@@ -27,6 +27,44 @@ Theorem C36_never_twice : forall (c : list op) (x : ack),
   (count_occ adec (concat (sent_ok s)) x <= count_occ adec (received s) x)%nat.
 Proof. exact sent_within_received. Qed.
 Print Assumptions C36_never_twice.
+
+(* Acknowledgements of a publish request that failed are sent again with a later one: the very
+   next request carries them (and everything else that waited), for any state and any in-flight
+   request that fails. *)
+Theorem C36_failed_resent : forall (s : st) (k : Z), inflight s <> [] ->
+  let i := pick k (length (inflight s)) in
+  let s' := step (step s (RespErr k)) Start in
+  inflight s' = remove_nth i (inflight s) ++ [pending s ++ nth i (inflight s) []] /\ pending s' = [].
+Proof. exact failed_resent. Qed.
+Print Assumptions C36_failed_resent.
+
+(* Subscription changes on the client, and publish calls that never reach the server, do not touch
+   the bookkeeping (so the theorems above cover histories containing them). *)
+Theorem C36_neutral_operations : forall (s : st) (o : op),
+  match o with StartDown _ | SubAdd _ | SubDel _ | SubMod _ | SubPub _ => True | _ => False end ->
+  step s o = s.
+Proof. exact down_and_subscription_changes_are_neutral. Qed.
+Print Assumptions C36_neutral_operations.
+
+(* The oracle IS the property, for any output and without reference to the model: whatever
+   observation sequence it accepts -- the implementation's, which the driver feeds it -- has a
+   complete ledger in which every received number is in exactly one place: acknowledged by an
+   OBSERVED request that succeeded, carried by an observed request still in flight, or waiting;
+   and no number is acknowledged more often than it was received. *)
+Theorem C36_oracle_sound : forall (c : case) (out : list Z), oracle c out = true ->
+  exists a i s r, ledger [] [] [] [] c out = Some (a, i, s, r) /\
+                  Permutation r (concat s ++ concat i ++ a).
+Proof. exact oracle_sound. Qed.
+Print Assumptions C36_oracle_sound.
+
+Theorem C36_oracle_sound_never_twice : forall (c : case) (out : list Z) (x : ack),
+  oracle c out = true ->
+  match ledger [] [] [] [] c out with
+  | Some (_, _, s, r) => (count_occ adec (concat s) x <= count_occ adec r x)%nat
+  | None => False
+  end.
+Proof. exact oracle_sound_never_twice. Qed.
+Print Assumptions C36_oracle_sound_never_twice.
 
 (* The executable oracle used on the implementation's observations holds on the model for every
    operation sequence (no validity hypothesis is needed: every sequence is a valid history). *)
